@@ -12,21 +12,24 @@ PROPS = {
         "rule": "registry histories (corpus of boundary histories, then random well-formed histories with ~10% out-of-range and ~4% protocol-violating operations; thorough adds the exhaustive tree L<=3); non-trivial = at least one operation accepted; distinct = distinct (L, mode, op list)",
     },
     "C09": {
-        "claimed": False,
+        "level_text": "Theorems for every commutative ring, gamma, L with 2L+1 < 2^32, both overflow modes, index sets of any size: the accumulator check gamma^i*acc - omega equals gamma^(L+1) exactly when i is valid (witness_check_iff, revoked_fails_check, valid_passes_check); the issuer-side witness, Witness::new (both issuance modes) and Witness::update (any applicable batch delta) all produce the closed form witOf, hence agree (three_derivations_agree); every tail index read lies in [2,2L] and is never L+1. The u32 tail-index expressions and the guards are regenerated from the Rust source each run; the rest is tied by running real histories with up to 4 holders and comparing every witness (issuer, from scratch, step-wise updated) with the model, plus the pairing check and process_credential_signature evaluated on the real code.",
+        "level_note": "Exponent form; the public pairing equation holds iff the exponent identity holds given e(g,g') != 1 and gamma^(L+1) != 0 (evaluated implicitly by the pairing oracle on every run). Trusted: Lean kernel, Mathlib, translate.py, harness, amcl for materialisation and pairings. Malformed deltas are C20's subject.",
         "title": "Witnesses are valid exactly for non-revoked indices",
         "streams": [("reg", {"quick": ["ossl-rel"], "thorough": ["ossl-rel", "ossl-chk", "rust-rel"]})],
         "ops": {"reg_history"},
         "rule": "registry histories with up to 4 holders; at every step each holder's witness is derived three ways on the implementation and two ways in the model; non-trivial = history with at least one holder and one accepted later operation",
     },
     "C13": {
-        "claimed": False,
+        "level_text": "Theorems over index sets of any size about the merge body regenerated from the Rust source (Gen.mergeBody): per-index truth table of the merged issued/revoked sets (merge_pointwise), closed form (I1\\R2) u (I2\\R1) / (R1\\I2) u (R2\\I1) and cancellation for consecutive deltas, disjointness, endpoints prev/accum, refusal of non-consecutive deltas, and merge_update_equiv: for every holder, updating a witness with the merged delta equals updating with the two deltas in sequence (any ring, any gamma, 2L+1 < 2^32, both overflow modes). Correspondence: real merge on all consecutive and sampled non-consecutive delta pairs of real histories compared with the model; witness equivalence evaluated on the real code for every index.",
+        "level_note": "Sets are lists read as sets (membership statements); accumulator equality is an abstract Boolean relation. Trusted: Lean kernel, Mathlib, translate.py (statement scanner of the merge body), harness.",
         "title": "Merged registry deltas equal sequential application",
         "streams": [("reg", {"quick": ["ossl-rel"], "thorough": ["ossl-rel", "rust-rel"]})],
         "ops": {"merge", "reg_history"},
         "rule": "all consecutive and sampled non-consecutive pairs of deltas recorded along registry histories; non-trivial = merge accepted; distinct = distinct (d1, d2) set contents",
     },
     "C14": {
-        "claimed": False,
+        "level_text": "Theorems for every commutative ring, gamma, L with 2L+1 < 2^32, both overflow modes: the generator yields exactly 2L+1 tails then None, position k holding gamma^k for k != L+1 and g' at L+1 (tails_sequence, induction with invariant cur = gamma^(k-1)); count() is 2L+1-k; the regenerated suppressed index (size/2)+1 equals L+1; no emitted position equals gamma^(L+1) when gamma^d != 1 for 1 <= d <= L+1 (secret_never_emitted); determinism. size and the suppressed position are the u32 expressions regenerated from the Rust source each run. Correspondence: real generators for L=1..24 (quick) / 1..64 + sampled up to 10^4 (thorough) with fresh keys, every emitted tail compared with g'^(model exponent), count() at every call, re-created and deserialised generators, and a direct search for g'^(gamma^(L+1)) among the outputs.",
+        "level_note": "Exponent form; inequality of group elements follows from inequality of exponents. The non-degeneracy hypothesis on gamma holds for all but a negligible fraction of keys and is checked by the direct oracle per generated key. Trusted: Lean kernel, Mathlib, translate.py, harness, amcl for materialisation.",
         "title": "Tails are correct and the secret tail is never published",
         "streams": [("tails", {"quick": ["ossl-rel", "ossl-chk"], "thorough": ["ossl-rel", "ossl-chk", "rust-rel"]})],
         "ops": {"tails"},
